@@ -208,7 +208,15 @@ func TestVerifE4Exhaustive(t *testing.T) {
 	alpha := vfE4Alphabet(os.Getenv("VERIF_ALPHA"))
 	env := vfE4Start(false, vfE4Topics)
 	defer env.Stop()
-	out := vfOpen(fmt.Sprintf("exh_%d", shard))
+	// VERIF_PRE=ident (audit B27): every history starts from the state in which both producers have IDENTIFYed (two
+	// extra lines, compared like all others) — from the empty registry ~99 % of the REGISTER/UNREGISTER steps of a
+	// length-3 history are E_INVALID "client must IDENTIFY"
+	pre := os.Getenv("VERIF_PRE")
+	name := "exh"
+	if pre != "" {
+		name = "exhp"
+	}
+	out := vfOpen(fmt.Sprintf("%s_%d", name, shard))
 	defer out.Close()
 	out.Case(env.ConfLine("fixed"), "conf")
 	g := vfE4NewGen(env, 2)
@@ -221,6 +229,13 @@ func TestVerifE4Exhaustive(t *testing.T) {
 	for h := shard; h < total; h += nshard {
 		out.Case("reset", env.Exec("reset"))
 		g.reset()
+		if pre == "ident" {
+			for sl := 0; sl < 2; sl++ {
+				line, res := env.ExecX(g.line(vfE4Op{kind: "identify", slot: sl}))
+				g.after(sl, res)
+				out.Case(line, res)
+			}
+		}
 		x := h
 		for i := 0; i < L; i++ {
 			op := alpha[x%N]
@@ -231,8 +246,8 @@ func TestVerifE4Exhaustive(t *testing.T) {
 		}
 		hist++
 	}
-	fmt.Printf("E4-EXH alphabet=%d len=%d histories=%d lines=%d\n", N, L, hist, out.N)
-	vfE4PrintHist("exh", env.hist)
+	fmt.Printf("E4-EXH alphabet=%d len=%d pre=%q histories=%d lines=%d\n", N, L, pre, hist, out.N)
+	vfE4PrintHist(name, env.hist)
 }
 
 func vfE4RandomOp(r *vfRand, nslots int) vfE4Op {
